@@ -49,6 +49,8 @@ type gctx struct {
 	uniqP int        // 0..10: how many of the attribute slots get a value no other slot has
 	// rootDecl: namespace declarations w:document has to carry for what was generated below it (math.go)
 	rootDecl []Attr
+	// endBody: the block just written is to stay the last one of w:body (bookmarks.go)
+	endBody bool
 	// shapes: producer shapes the part contains (math.go, tables.go); recorded in XMLPart.Ops as "shape:..." (evidence only)
 	shapes []string
 }
@@ -235,7 +237,7 @@ func (g *gctx) mainTree() *Node {
 	t := g.t
 	body := Node{N: "w:body"}
 	k := rapid.IntRange(0, 6).Draw(t, "blocks")
-	for i := 0; i < k && g.nodes <= g.max; i++ {
+	for i := 0; i < k && g.nodes <= g.max && !g.endBody; i++ {
 		// tables get extra weight: they carry most of the reader's and the edit script's state
 		name := rapid.SampledFrom(append(append([]string{}, g.v.Body...), "tbl", "p")).Draw(t, "block")
 		if name == "sectPr" && i < k-1 && rapid.Bool().Draw(t, "sect-last") {
@@ -243,9 +245,12 @@ func (g *gctx) mainTree() *Node {
 		}
 		if chance(t, "producer-block", 220) {
 			// content controls and fields as other producers write them (producer.go)
-			switch pick(t, "producer-kind", 6) {
+			switch pick(t, "producer-kind", 8) {
 			case 0:
 				body.C = append(body.C, g.fieldParagraph())
+			case 6, 7:
+				// a heading and the body-level bookmark marks other producers leave next to it (bookmarks.go)
+				body.C = append(body.C, g.bookmarkedRange()...)
 			case 1:
 				id := g.uniqueValue("n", "")
 				body.C = append(body.C, el("w:bookmarkStart", at("w:id", id, "w:name", g.uniqueValue("s", "_Toc"))), g.elem("p", 1, -1), el("w:bookmarkEnd", at("w:id", id)))
@@ -291,7 +296,8 @@ func (g *gctx) mainTree() *Node {
 	return &root
 }
 
-var edgeTableShapes = []string{"empty", "selfclosed", "tblPr-only", "grid-only", "tblPr+grid", "tr-without-tc", "trPr-only-row", "empty-first-row", "rows-then-nothing", "unknown-only"}
+var edgeTableShapes = []string{"empty", "selfclosed", "tblPr-only", "grid-only", "tblPr+grid", "tr-without-tc", "trPr-only-row", "empty-first-row", "rows-then-nothing", "unknown-only",
+	"empty-grid", "short-grid", "grid-of-unknown-children"}
 
 // edgeTable returns a body-level table of a degenerate shape.
 func edgeTable(i int) Node {
@@ -317,6 +323,12 @@ func edgeTable(i int) Node {
 		return el("w:tbl", nil, pr, grid, el("w:tr", nil), el("w:tr", nil, cell, cell))
 	case "rows-then-nothing":
 		return el("w:tbl", nil, el("w:tr", nil, cell), el("w:tr", nil))
+	case "empty-grid": // w:gridCol is optional: a grid without columns above ordinary rows
+		return el("w:tbl", nil, pr, el("w:tblGrid", nil), el("w:tr", nil, cell, cell), el("w:tr", nil, cell, cell))
+	case "short-grid": // fewer grid columns than cells
+		return el("w:tbl", nil, pr, el("w:tblGrid", nil, el("w:gridCol", at("w:w", "4000"))), el("w:tr", nil, cell, cell), el("w:tr", nil, cell, cell))
+	case "grid-of-unknown-children":
+		return el("w:tbl", nil, el("w:tblGrid", nil, el("w:tblGridChange", at("w:id", "1"))), el("w:tr", nil, cell, cell))
 	}
 	return el("w:tbl", nil, el("w:sdt", nil, el("w:sdtContent", nil, el("w:tr", nil, cell))))
 }
